@@ -27,7 +27,7 @@ Variable unlit : L -> bytes.
 (* which variant of NewTree the implementation is expected to be *)
 Variable code_fixed_F15 : bool.
 
-Inductive ores := OCrash | ONil | OId (id : L).
+Inductive ores := OCrash | ONil | OErr | OId (id : L).
 Record obs := Obs { o_runs : list ores; o_alt : list ores;
                     o_h256 : list (L * L); o_u : list (L * L) }.
 Inductive itree := IN (k : option nat) (ch : list itree).
@@ -102,6 +102,7 @@ Definition dec_res (o : ores) : option res :=
   match o with
   | OCrash => Some RCrash
   | ONil => Some RNil
+  | OErr => Some RErr
   | OId h => Some (RId (unlit h))
   end.
 
@@ -169,6 +170,11 @@ Definition agree_name (f : (bytes -> bytes) -> bytes -> bytes) (it : L * obs) : 
   | None => false
   end.
 
+(* point type 0 is edwards25519: Point.String() must be the hex of the marshalled point
+   (the hypothesis under which distinct keys get distinct server / node ids) *)
+Definition key_str_ok (k : key) : bool :=
+  if ktype k =? 0 then bytes_eqb (kstr k) (ed25519_str (kbin k)) else true.
+
 Definition agree_key (kind : nat) (ks : list key) (it : option nat * obs) : bool :=
   match dec_ref ks (fst it), dec_obs (snd it) with
   | Some k, Some o =>
@@ -190,7 +196,10 @@ Definition gagree (c : gcase) : bool :=
   | CProtos items => forallb (agree_name proto_id) items
   | CServices items => forallb (agree_name service_id) items
   | CKeys kind kt items =>
-      match dec_ktab kt with Some ks => forallb (agree_key kind ks) items | None => false end
+      match dec_ktab kt with
+      | Some ks => forallb (agree_key kind ks) items && forallb key_str_ok ks
+      | None => false
+      end
   end.
 
 
@@ -272,13 +281,19 @@ Definition tree_legal (rid : option bytes) (g : gtree) : option (bytes * tree) :
   | _, _ => None
   end.
 
+Definition bad_rid (rid : option bytes) : bool :=
+  match rid with Some r => negb (List.length r =? 16) | None => false end.
+
 Definition entry_tree (ks : list key) (it : (option L * itree) * obs) :=
   match dec_rid (fst (fst it)), dec_tree ks (snd (fst it)), dec_obs (snd it) with
   | Some rid, Some g, Some o =>
-      Some (match tree_legal rid g with
-            | Some x => legal_entry x o false
-            | None => illegal_entry o
-            end)
+      (* a roster id that is present but not 16 bytes: the harness writes the empty id
+         when a LEGAL roster did not get an id from NewRoster (nil or panic) *)
+      Some (if bad_rid rid then ([10], [])
+            else match tree_legal rid g with
+                 | Some x => legal_entry x o false
+                 | None => illegal_entry o
+                 end)
   | _, _, _ => None
   end.
 
